@@ -9,7 +9,7 @@ BUILT = {
    "Spells n in the chosen variant with an independent speller and requires text2digits, replace_numbers_in_text (in generated sentence contexts) and the scanner (exactly one occurrence over exactly the phrase) to give decimal(n). Quick: canonical spelling of every n < 20 000 per language + 3M structured random (n, variant, context); thorough: every n < 10^6 + 40M. Exploration: every vocabulary arm, guard and variant dimension is hit thousands of times; a defect confined to one unstructured integer out of 10^12 can be missed.",
    SPELL_NOTE, "§3 C01, §2.1"),
  "C02": B("metamorphic / structural property-based testing (splice oracle, id-recording tokens)",
-   "For generated texts (clean, dirty, arbitrary unicode) and thresholds: tokenizer concatenation is lossless, rewrite == our splice of the reported occurrences, no occurrence => identical output, numberless-by-construction texts unchanged; on id-recording token streams with hints each token is kept or handed exactly once, in order, to the one occurrence covering it, whether the replacement constructor reads none, one or all of the tokens it is handed; a whole-run procedure repeats the splice clause on long documents (up to 2^16 tokens quick, 2^20 thorough). 2M cases quick, 25M thorough + libFuzzer target text_api (thorough).",
+   "For generated texts (clean, dirty, arbitrary unicode) and thresholds: tokenizer concatenation is lossless, rewrite == our splice of the reported occurrences, no occurrence => identical output, numberless-by-construction texts unchanged; on id-recording token streams with hints (three per text: all tokens, without whitespace tokens, word tokens only - so that occurrences can be directly adjacent) each token is kept or handed exactly once, in order, to the one occurrence covering it, whether the replacement constructor reads none, one or all of the tokens it is handed; a whole-run procedure repeats the splice clause on long documents (up to 2^16 tokens quick, 2^20 thorough). 2M cases quick, 25M thorough + libFuzzer target text_api (thorough).",
    "Clause 2 compares two routes through the library; splice, concat and id accounting are ours. Uses the verif-hooks tokenizer re-export.", "§3 C02"),
  "C03": B("property-based fuzzing of every entry point under catch_unwind + exhaustive tiny strings",
    "Every public entry point is called on arbitrary UTF-8 (any::<String>, \\PC*, hostile fragment pool, dirty sentences, long repeated texts), all languages, thresholds incl. NaN/inf; a panic is a violation; text2digits must answer Err for texts without words. Also driven: own-token streams whose lowercase form is normalised (possibly empty), a lazy search over a practically endless stream, exec_group on raw word groups, texts of an exact byte length of 2^k-4..2^k+1 padded with characters whose case mapping grows. All strings of length <= 3 over a 9-char alphabet are enumerated. 29 very long inputs (4*10^5 / 2*10^6 repetitions) run in a child process on a default 2 MiB stack: the child dying is a violation attributed to the running input. Non-termination shows as a time cap expiring (exit 2). libFuzzer target text_api in the thorough tier.",
@@ -48,7 +48,7 @@ BUILT = {
    "Generated histories (30k quick / 400k thorough, up to 300 calls over 8 public functions and 7 languages) on one shared interpreter set must equal fresh-interpreter results; 16 threads sharing one interpreter replay 20k-100k generated calls; cold-start rounds (8 threads released by a barrier make the first calls on a freshly built interpreter) and hot loops (16 threads x 8 long compounds per language); a battery of ordinary calls is repeated after ~130 caught panics of a user-supplied interpreter inside every entry point (same and fresh interpreters must answer as before); histories include a panicking user interpreter and references are computed in a fixed order; a separate crate asserts Send+Sync+'static; a child process runs a workload covering every vocabulary arm (plus numerals beyond 2^53) with stdout/stderr piped and both must stay empty (a violation is bisected to one workload item).",
    "Thread interleavings are stressed on the real scheduler, not enumerated or controlled (sound today: no interior mutability; the type check and history test guard that).", "§3 C14"),
  "C15": B("property-based testing of the token-stream contract (counting iterator adaptor; hint == comma metamorphic relation)",
-   "Own-token streams with hints (forced inside numbers in half of the cases, long repeated streams, hyphens as separate tokens): lazy == batch through next / fold / for_each / count / last / nth / skip (also beyond the end) / step_by / peekable / two alternately advanced searches, honest size_hint (also over inputs whose own size_hint is (0, Some(usize::MAX)) or (0, None)), ends cleanly, consumes nothing before the first request and never beyond the second number after the one returned; separated hint (carried as a flag on the token or as a pause on its predecessor read through `previous`) keeps tokens apart and is equivalent to an inserted comma; flagged tokens are in no occurrence. 1.5M quick / 20M thorough.",
+   "Own-token streams with hints (forced inside numbers in half of the cases, long repeated streams, hyphens as separate tokens, one stream in four without whitespace tokens so that occurrences are directly adjacent): lazy == batch through next / fold / for_each / count / last / nth / skip (also beyond the end) / step_by / peekable / two alternately advanced searches, honest size_hint (also over inputs whose own size_hint is (0, Some(usize::MAX)) or (0, None)), ends cleanly, consumes nothing before the first request and never beyond the second number after the one returned; separated hint (carried as a flag on the token or as a pause on its predecessor read through `previous`) keeps tokens apart and is equivalent to an inserted comma; flagged tokens are in no occurrence. 1.5M quick / 20M thorough.",
    "Hints only on tokens the scanner examines (not whitespace / bare '-').", "§3 C15"),
  "C16": B("property-based testing against a reference speller + enumeration (k zeros x all n < 2000)",
    "k zero words + spell(n) must validate and rewrite to '0'^k n as one occurrence with value n; spell(n) zero -> 'n 0'; lone zero -> 0. Enumerated k<=6 x every n<2000 and g*1000^j; 3M generated quick / 30M thorough.",
